@@ -409,8 +409,13 @@ def replay_operator_relations():
         except Exception as ex:  # noqa  (a well-formed operator between two grids must assemble)
             raise Raised("%s: %s" % (type(ex).__name__, str(ex)[:120]))
 
-    for (ga, gb), tag in (((gA, gB), "two grids"), ((gA, gA), "one grid")):
-        pa, pb = api.function_space(ga, "P", 1), api.function_space(gb, "P", 1)
+    gD = Z.grid_with_domains("octa")
+    for (ga, gb), tag in (((gA, gB), "two grids"), ((gA, gA), "one grid"), ((gD, gD), "one grid, segment spaces")):
+        if tag == "one grid, segment spaces":
+            # P1 on two different segments with default options: elements of the supports mix slots with and without dof, test and trial multipliers differ
+            pa, pb = api.function_space(ga, "P", 1, segments=[1, 2]), api.function_space(gb, "P", 1, segments=[2, 3])
+        else:
+            pa, pb = api.function_space(ga, "P", 1), api.function_space(gb, "P", 1)
         try:
             H.hypersingular(pa, pb, pb, 1.3 + 0.4j, parameters=par).weak_form()
             H.hypersingular(pb, pa, pa, 1.3 + 0.4j, parameters=par).weak_form()
